@@ -97,17 +97,42 @@ func rulePollPure(c *Ctx) []Obligation {
 				return false, false
 			}
 			undecided := ""
-			if isNil, found := retNil(doneClause); found && isNil {
-				fails = append(fails, "the Done branch returns nil: a delivered cancel is reported as 'not cancelled'")
-			} else if !found {
+			// every path through the Done branch reports the cancellation: enumerate its paths
+			{
 				assigns := false
 				for _, st := range doneClause.Body {
 					if _, ok := st.(*ast.AssignStmt); ok {
 						assigns = true
 					}
 				}
-				if !assigns {
-					undecided = "the Done branch neither returns nor assigns a result"
+				type pst struct{ decided []string }
+				w := &Walker[*pst]{
+					Clone:   func(s *pst) *pst { return &pst{decided: append([]string(nil), s.decided...)} },
+					IsPanic: func(s ast.Stmt) bool { return IsPanicCall(info, s) },
+					OnCond: func(s *pst, cond ast.Expr, taken bool) (*pst, bool) {
+						s.decided = append(s.decided, exprStr(cond)+":"+map[bool]string{true: "true", false: "false"}[taken])
+						return s, true
+					},
+				}
+				fell := false
+				w.Exit = func(s *pst, o outcome) {
+					switch o.kind {
+					case cReturn:
+						if len(o.ret.Results) >= 1 {
+							if id, ok := ast.Unparen(o.ret.Results[0]).(*ast.Ident); ok && id.Name == "nil" && info.Uses[id] == types.Universe.Lookup("nil") {
+								fails = append(fails, "a path through the Done branch returns nil ("+c.Pos(o.ret.Pos())+", decisions "+strings.Join(s.decided, ", ")+"): a delivered cancel is reported as 'not cancelled'")
+							}
+						}
+					case cNormal:
+						fell = true
+					}
+				}
+				w.Run(&ast.BlockStmt{List: doneClause.Body}, &pst{})
+				if w.Overflow || len(w.Unsupported) > 0 {
+					undecided = "path enumeration of the Done branch failed"
+				}
+				if fell && !assigns {
+					undecided = "a path through the Done branch neither returns nor assigns a result"
 				}
 			}
 			if isNil, found := retNil(defClause); found && !isNil {
